@@ -515,6 +515,10 @@ def abs_eval(e: ast.AST, env: Dict[str, object], fn: ast.AST, _depth: int = 0):
         if fname == "isinstance" and len(e.args) == 2:
             v = ev(e.args[0])
             kinds = {dotted_name(x) for x in (e.args[1].elts if isinstance(e.args[1], ast.Tuple) else [e.args[1]])}
+            if isinstance(v, _Member) and kinds == {"classmethod"}:
+                if v.binding is None:
+                    raise _Unknown("how the attribute is bound")
+                return v.binding == "classmethod"
             if isinstance(v, dict) and kinds & {"dict", "Mapping", "collections.abc.Mapping", "abc.Mapping", "MutableMapping"}:
                 return True
             if v is None:
@@ -528,10 +532,21 @@ def abs_eval(e: ast.AST, env: Dict[str, object], fn: ast.AST, _depth: int = 0):
             raise _Unknown("issubclass")
         if fname == "hasattr" and len(e.args) == 2 and isinstance(e.args[1], ast.Constant):
             base = ev(e.args[0])
+            if isinstance(base, _AbsExact):
+                return base.has(e.args[1].value)
             if isinstance(base, _AbsClass):
                 base.attr(e.args[1].value)  # known to exist, else _Unknown: a subclass may add the attribute
                 return True
             raise _Unknown("hasattr")
+        if (call_name(e) or "").split(".")[-1] == "getattr_static" and 2 <= len(e.args) <= 3 and not e.keywords and isinstance(e.args[1], (ast.Constant, ast.Name)):
+            base, nm = ev(e.args[0]), ev(e.args[1])
+            if isinstance(base, _AbsExact) and isinstance(nm, str):
+                found = base.static(nm)
+                if found is not None:
+                    return found
+                if len(e.args) == 3:
+                    return ev(e.args[2])
+            raise _Unknown("static attribute lookup")
         if fname == "getattr" and len(e.args) >= 2 and isinstance(e.args[1], ast.Constant):
             base = ev(e.args[0])
             if isinstance(base, _AbsClass):
@@ -616,6 +631,45 @@ def abs_eval(e: ast.AST, env: Dict[str, object], fn: ast.AST, _depth: int = 0):
                 return getattr(base, e.func.attr)(arg)
         raise _Unknown(f"call {ast.unparse(e)[:60]}")
     raise _Unknown(type(e).__name__)
+
+
+class _Member:
+    """What a static lookup of an attribute finds on a generated class: only how the name is bound is known
+    ('classmethod' / 'other' / None = not decided)."""
+
+    def __init__(self, binding: Optional[str]):
+        self.binding = binding
+
+
+class _AbsExact(_AbsClass):
+    """A generated class whose attributes are known exactly: *members* maps every name that its template or a class along
+    its MRO binds to the way it is bound; when *closed* (every base resolved inside the package) any other plain name is
+    absent.  Dunder names and names the metaclasses define stay undecided."""
+
+    def __init__(self, names: List[str], members: Dict[str, Optional[str]], closed: bool, meta_names: Set[str]):
+        super().__init__(names)
+        self.members = dict(members)
+        self.closed = closed
+        self.meta_names = set(meta_names)
+
+    def _absent(self, name: str) -> bool:
+        if not self.closed or (name.startswith("__") and name.endswith("__")) or name in self.meta_names:
+            raise _Unknown(f"whether the generated class has `{name}`")
+        return True
+
+    def has(self, name: str) -> bool:
+        return name in self.members or not self._absent(name)
+
+    def static(self, name: str) -> Optional[_Member]:
+        if name in self.members:
+            return _Member(self.members[name])
+        self._absent(name)
+        return None
+
+    def attr(self, name: str):
+        if name in self.members:
+            return _Opaque()
+        return super().attr(name)
 
 
 # --------------------------------------------------------------------------- round 4: which names must be classmethods
@@ -1616,6 +1670,7 @@ def run(repo: Repo, R: Report) -> None:
     _round5(repo, R, tmpl)
     _round6(repo, R, tmpl)
     _round7(repo, R, tmpl)
+    _round8(repo, R, tmpl)
 
 
 def _round3(repo: Repo, R: Report, tmpl) -> None:
@@ -3306,3 +3361,423 @@ def _round7(repo: Repo, R: Report, tmpl) -> None:
                             + (f"a {kind} class is free to declare that attribute (the catalogue at most warns), and then " if any(isinstance(x, ast.Call) and isinstance(x.func, ast.Name) and x.func.id == "hasattr" for x in ast.walk(nf)) else "")
                             + "the generated node class declares one type and the processor it runs another - the declared input/output types of the node wrapper do not mirror the processor it wraps (sources take no data, sinks pass their input type through)",
                             f.lineno)
+
+
+# --------------------------------------------------------------------------- round 8: what the catalogue demands of a class vs what the templates define
+_PLAIN_BASES = {"object", "ABC", "abc.ABC", "Generic", "typing.Generic", "Protocol", "typing.Protocol"}
+
+
+def exact_class_facts(repo: Repo, bases: List[str], attrs: Dict[str, Tuple[ast.AST, bool]]) -> Tuple[Dict[str, Optional[str]], bool]:
+    """({attribute: 'classmethod' / 'other' / None}, closed) for the classes generated from a template with the base names
+    *bases* and the namespace *attrs*: the template's own bindings first, then the classes along the MRO of its bases
+    (definitions that disagree about the binding give None).  closed = every base along the MRO is a class of the
+    package or one of the plain library bases that add no ordinary attribute."""
+    members: Dict[str, Optional[str]] = {a: ("classmethod" if is_cm else "other") for a, (_n, is_cm) in attrs.items()}
+    closed = True
+    inherited: Dict[str, Set[str]] = {}
+    for b in bases:
+        hit = _class_by_name(repo, b.split(".")[-1])
+        if hit is None:
+            closed = False
+            continue
+        for m, c in repo.mro(*hit):
+            for be in c.bases:
+                inner = be.value if isinstance(be, ast.Subscript) else be
+                r = repo.resolve_name(m, inner, c)
+                if not (r is not None and isinstance(r[1], ast.ClassDef)) and (dotted_name(inner) or "?") not in _PLAIN_BASES:
+                    closed = False
+            for st in c.body:
+                if isinstance(st, FuncNode):
+                    inherited.setdefault(st.name, set()).add("classmethod" if any(dotted_name(d) == "classmethod" for d in st.decorator_list) else "other")
+                elif isinstance(st, (ast.Assign, ast.AnnAssign)) and getattr(st, "value", None) is not None:
+                    for t in (st.targets if isinstance(st, ast.Assign) else [st.target]):
+                        for x in ast.walk(t):
+                            if isinstance(x, ast.Name):
+                                inherited.setdefault(x.id, set()).add("classmethod" if is_classmethod_value(st.value, c) else "other")
+                elif not isinstance(st, (ast.Expr, ast.Pass, ast.AnnAssign)):
+                    for x in ast.walk(st):  # conditional definitions, imports, nested classes: bound somehow
+                        if isinstance(x, (ast.FunctionDef, ast.AsyncFunctionDef, ast.ClassDef)):
+                            inherited.setdefault(x.name, set()).add("?")
+                        elif isinstance(x, ast.Name) and isinstance(x.ctx, ast.Store):
+                            inherited.setdefault(x.id, set()).add("?")
+                        elif isinstance(x, ast.alias):
+                            inherited.setdefault((x.asname or x.name).split(".")[0], set()).add("?")
+    for k, v in inherited.items():
+        if k not in members:
+            members[k] = next(iter(v)) if len(v) == 1 and "?" not in v else None
+    return members, closed
+
+
+def metaclass_names(repo: Repo) -> Set[str]:
+    """Names that the metaclasses of the package define (a lookup on a class finds them too)."""
+    out: Set[str] = set()
+    for m, _q, c in repo.all_classes():
+        if m.rel.startswith(("semantiva/examples/", "tests/")):
+            continue
+        if any((dotted_name(b) or "").split(".")[-1] in ("type", "ABCMeta", "EnumMeta") for b in c.bases):
+            for x in ast.walk(c):
+                if isinstance(x, (ast.FunctionDef, ast.AsyncFunctionDef)):
+                    out.add(x.name)
+                elif isinstance(x, ast.Name) and isinstance(x.ctx, ast.Store):
+                    out.add(x.id)
+    return out
+
+
+def template_component_types(repo: Repo, rel: str, attrs, bases: List[str], site: ast.AST) -> List[Tuple[Optional[str], str]]:
+    """(wrapped kind or None, component_type) for every component_type the classes generated from a template can declare:
+    the literal its own `_define_metadata` writes, the one of each wrapped kind (the factory's `issubclass` tests on its
+    arguments) when the template keeps the wrapped class's entry, else the one its bases declare.  Empty = not decided."""
+    factory = enclosing_function(site)
+    own = next((t for t in (declared_component_type(repo, b.split(".")[-1]) for b in bases) if t), None)
+    if factory is not None:
+        fparams = set(_params(factory))
+        entries: List[ast.AST] = []
+        preserved = False
+        for a, f, _b in member_functions(repo, rel, attrs, site):
+            if a != "_define_metadata" or not isinstance(f, FuncNode):
+                continue
+            for v, _st in metadata_entries(f, "component_type"):
+                entries.append(v)
+                for x in _flow_in(f, v):
+                    if isinstance(x, ast.Call) and isinstance(x.func, ast.Attribute) and x.func.attr in ("get_metadata", "_define_metadata") and (dotted_name(x.func.value) or "").split(".")[0] in fparams:
+                        preserved = True
+        if preserved:
+            kinds = sorted({dotted_name(x) or "?" for c in ast.walk(factory) if isinstance(c, ast.Call) and call_name(c) == "issubclass" and len(c.args) == 2 and (dotted_name(c.args[0]) or "") in fparams
+                            for x in (c.args[1].elts if isinstance(c.args[1], ast.Tuple) else [c.args[1]])})
+            out = [(k, declared_component_type(repo, k.split(".")[-1])) for k in kinds]
+            return [(k, t) for k, t in out if t] if all(t for _k, t in out) else []
+        if entries:
+            if all(isinstance(v, ast.Constant) and isinstance(v.value, str) for v in entries):
+                return [(None, v.value) for v in entries]  # type: ignore[attr-defined]
+            return []
+    return [(None, own)] if own else []
+
+
+def _inline_catalogue_helpers(repo: Repo, mod, e: ast.AST, _depth: int = 0) -> ast.AST:
+    """*e* with calls of plain module-level helpers of *mod* whose body is `x = ..` (single-assignment locals) followed
+    by one `return <expr>` replaced by that expression over the arguments."""
+    if _depth > 4:
+        return e
+
+    class _T(ast.NodeTransformer):
+        def visit_Call(self, node: ast.Call):
+            self.generic_visit(node)
+            h = mod.defs.get(node.func.id) if isinstance(node.func, ast.Name) else None
+            if not isinstance(h, FuncNode) or h.decorator_list or node.keywords or any(isinstance(a, ast.Starred) for a in node.args):
+                return node
+            a = h.args
+            if a.vararg or a.kwarg or a.kwonlyargs or len(a.posonlyargs) + len(a.args) != len(node.args):
+                return node
+            body = [st for st in h.body if not (isinstance(st, ast.Expr) and isinstance(st.value, ast.Constant))]
+            if not body or not isinstance(body[-1], ast.Return) or body[-1].value is None:
+                return node
+            table: Dict[str, ast.AST] = {p.arg: v for p, v in zip(list(a.posonlyargs) + list(a.args), node.args)}
+            for st in body[:-1]:
+                if not (isinstance(st, ast.Assign) and len(st.targets) == 1 and isinstance(st.targets[0], ast.Name)) or st.targets[0].id in table:
+                    return node
+                table[st.targets[0].id] = _Subst(table).visit(ast.Expression(body=clone(st.value))).body
+            res = _Subst(table).visit(ast.Expression(body=clone(body[-1].value))).body
+            return _inline_catalogue_helpers(repo, mod, res, _depth + 1)
+
+    return _T().visit(ast.Expression(body=clone(e))).body
+
+
+def diagnostic_fires(repo: Repo, mod, fn: ast.AST, d: ast.AST, env: Dict[str, object]) -> Tuple[Optional[bool], List[str], Optional[ast.AST]]:
+    """Does the catalogue check *fn* (normal form) evaluate the diagnostic call *d* for a class with the abstract facts
+    *env*?  (True / False / None = not decided, the tests evaluated, the last test that let it through)."""
+    seen: List[str] = []
+    last: List[Optional[ast.AST]] = [None]
+
+    def holds(n: ast.AST) -> bool:
+        return any(x is d for x in ast.walk(n))
+
+    def decide(test: ast.AST) -> Optional[bool]:
+        try:
+            val: Optional[bool] = bool(abs_eval(_inline_catalogue_helpers(repo, mod, test), env, fn))
+        except (_Unknown, TypeError, ValueError, KeyError, AttributeError) as u:
+            seen.append(f"`{norm(test, 110)}` (undecided: {u})")
+            return None
+        seen.append(f"`{norm(test, 110)}` is {val}")
+        return val
+
+    def leaves(stmts: List[ast.stmt]) -> bool:
+        return any(isinstance(x, (ast.Return, ast.Raise)) for st in stmts for x in walk_no_nested(st))
+
+    def block(stmts: List[ast.stmt]) -> Optional[bool]:
+        undecided = False
+        for st in stmts:
+            if not holds(st):
+                if isinstance(st, ast.If) and leaves([st]):
+                    val = decide(st.test)
+                    taken = (st.body if val else st.orelse) if val is not None else None
+                    if taken is None:
+                        undecided = True
+                    elif taken and isinstance(taken[-1], (ast.Return, ast.Raise)):
+                        return False
+                    elif leaves(taken):
+                        undecided = True
+                elif leaves([st]):
+                    undecided = True
+                continue
+            res: Optional[bool]
+            if isinstance(st, ast.If):
+                if holds(st.test):
+                    return None
+                val = decide(st.test)
+                if val is None:
+                    return None
+                inner = st.body if val else st.orelse
+                if not any(holds(x) for x in inner):
+                    return False
+                last[0] = st.test
+                res = block(inner)
+            elif isinstance(st, ast.Try):
+                res = block(st.body) if any(holds(x) for x in st.body) else None
+            elif isinstance(st, (ast.With, ast.AsyncWith)):
+                res = block(st.body) if any(holds(x) for x in st.body) else None
+            elif isinstance(st, (ast.Expr, ast.Return, ast.Assign, ast.AnnAssign, ast.AugAssign)):
+                res = True
+                child: ast.AST = d
+                for a in ancestors(d):
+                    if a is st:
+                        break
+                    if isinstance(a, ast.IfExp):
+                        if child is a.test:
+                            return None
+                        val = decide(a.test)
+                        if val is None:
+                            return None
+                        if (child is a.body) != val:
+                            return False
+                        last[0] = a.test
+                    elif isinstance(a, (ast.BoolOp, ast.ListComp, ast.SetComp, ast.DictComp, ast.GeneratorExp, ast.Lambda, ast.comprehension)):
+                        return None
+                    child = a
+            else:
+                return None
+            return None if (res and undecided) else res
+        return False
+
+    return block(list(fn.body)), seen, last[0]  # type: ignore[attr-defined]
+
+
+_SOURCE_PARSERS = ("ast.parse", "ast.literal_eval")
+_CATCH_ALL = ("Exception", "BaseException")
+
+
+def source_parser_call(mod, c: ast.Call) -> Optional[str]:
+    """'ast.parse' / 'ast.literal_eval' when *c* calls that partial function of the standard library (whatever the
+    import spelling), else None."""
+    nm = call_name(c)
+    if not nm:
+        return None
+    head, _, rest = nm.partition(".")
+    target = mod.imports.get(head)
+    full = (f"{target}.{rest}" if rest else target) if target else nm
+    return full if full in _SOURCE_PARSERS else None
+
+
+def _caught_all(node: ast.AST, fn: ast.AST) -> bool:
+    """A handler (or `contextlib.suppress`) of *fn* around *node* catches every Exception."""
+    child: ast.AST = node
+    for a in ancestors(node):
+        if isinstance(a, ast.Try) and any(x is child for x in a.body):
+            for h in a.handlers:
+                kinds = [dotted_name(x) or "?" for x in (h.type.elts if isinstance(h.type, ast.Tuple) else [h.type])] if h.type is not None else ["BaseException"]
+                if any(k.split(".")[-1] in _CATCH_ALL for k in kinds) and not any(isinstance(x, ast.Raise) for st in h.body for x in walk_no_nested(st)):
+                    return True
+        if isinstance(a, (ast.With, ast.AsyncWith)) and any(x is child for x in a.body):
+            for it in a.items:
+                ce = it.context_expr
+                if isinstance(ce, ast.Call) and (call_name(ce) or "").split(".")[-1] == "suppress" and any((dotted_name(x) or "").split(".")[-1] in _CATCH_ALL for x in ce.args):
+                    return True
+        if a is fn:
+            break
+        child = a
+    return False
+
+
+def _typed_method_targets(repo: Repo, mod, fn: ast.AST, call: ast.Call) -> List[Tuple[object, ast.AST]]:
+    """Methods that `<local>.m(..)` denotes when the local is a parameter annotated with a class of the package or holds
+    an instance constructed in *fn* (`x = given or K()`)."""
+    f = call.func
+    if not (isinstance(f, ast.Attribute) and isinstance(f.value, ast.Name)) or f.value.id in ("self", "cls"):
+        return []
+    cands: List[str] = []
+    a = fn.args  # type: ignore[attr-defined]
+    for p in list(getattr(a, "posonlyargs", [])) + list(a.args) + list(a.kwonlyargs):
+        if p.arg == f.value.id and p.annotation is not None:
+            for x in ast.walk(p.annotation):
+                if isinstance(x, ast.Name):
+                    cands.append(x.id)
+                elif isinstance(x, ast.Attribute):
+                    cands.append(x.attr)
+                elif isinstance(x, ast.Constant) and isinstance(x.value, str):
+                    cands.extend(_re.findall(r"[A-Za-z_][A-Za-z_0-9]*", x.value))
+    for x in value_flow(fn, f.value):
+        if isinstance(x, ast.Call) and (call_name(x) or ""):
+            cands.append((call_name(x) or "").split(".")[-1])
+    out: List[Tuple[object, ast.AST]] = []
+    for nm in cands:
+        hit = _class_by_name(repo, nm)
+        if hit is None:
+            continue
+        m = repo.method(hit[0], hit[1], f.attr)
+        if m is not None and all(m[1] is not o[1] for o in out):
+            out.append(m)
+    return out
+
+
+def source_parser_sites(repo: Repo, mod, fn: ast.AST, _memo: Optional[Dict[int, list]] = None, _stack: Optional[Set[int]] = None, _depth: int = 0) -> List[Tuple[List[Tuple[object, ast.AST, ast.Call]], object, ast.AST, ast.Call, str]]:
+    """(calls on the way [(module, function, call)], module, function, parser call, parser) for every `ast.parse` /
+    `ast.literal_eval` in the call closure of *fn* whose exception no catch-all handler on the way up to *fn* stops."""
+    _memo = _memo if _memo is not None else {}
+    _stack = _stack if _stack is not None else set()
+    if id(fn) in _memo:
+        return _memo[id(fn)]
+    if id(fn) in _stack or _depth > 7:
+        return []
+    _stack.add(id(fn))
+    out = []
+    for c in calls_in(fn):
+        which = source_parser_call(mod, c)
+        if which and c.args and not _caught_all(c, fn):
+            out.append(([], mod, fn, c, which))
+            continue
+        try:
+            targets = list(repo.resolve_call(mod, c))
+        except Exception:  # pragma: no cover - resolution is best effort
+            targets = []
+        if not targets:
+            targets = _typed_method_targets(repo, mod, fn, c)
+        for tm, tn in targets:
+            if not isinstance(tn, FuncNode) or tn is fn:
+                continue
+            sub = source_parser_sites(repo, tm, tn, _memo, _stack, _depth + 1)
+            if sub and not _caught_all(c, fn):
+                for chain, m2, f2, c2, w2 in sub:
+                    if all(c2 is not o[3] for o in out):
+                        out.append(([(mod, fn, c)] + chain, m2, f2, c2, w2))
+    _stack.discard(id(fn))
+    _memo[id(fn)] = out
+    return out
+
+
+def parsed_text_form(repo: Repo, mod, fn: ast.AST, call: ast.Call) -> str:
+    """The parser call with its text argument written over the parameters of *fn* (`_P_`), locals looked through and
+    keywords sorted: two sites with the same form parse the same string the same way."""
+    ps = set(_params(fn))
+    arg = _resolve_expr(fn, call.args[0], {})
+
+    class _P(ast.NodeTransformer):
+        def visit_Name(self, node: ast.Name):
+            return ast.copy_location(ast.Name(id="_P_", ctx=ast.Load()), node) if node.id in ps else node
+
+    text = ast.unparse(_P().visit(ast.Expression(body=clone(arg))).body)
+    rest = [ast.unparse(_resolve_expr(fn, a, {})) for a in call.args[1:]] + sorted(f"{k.arg}={ast.unparse(_resolve_expr(fn, k.value, {}))}" for k in call.keywords if k.arg)
+    return f"{source_parser_call(mod, call)}({', '.join([text] + rest)})"
+
+
+def _round8(repo: Repo, R: Report, tmpl) -> None:
+    exp_mod = repo.module(EXP)
+    # ------------------------------------------------------------------ the catalogue demands nothing a template does not define
+    r_dem = R.rule("C16-D1-catalogue-demands-met-by-templates", "no error-level diagnostic of a catalogue check is reached for the classes a template generates, as far as the check's own tests decide it on what is known of those classes: the component_type they declare (their own, or the wrapped kind's where the template keeps it), the names along their MRO, and which attributes the template and its bases bind and how (classmethod or not; an attribute nobody binds is absent, so `hasattr` is false and a static lookup finds nothing) - a check that demands an attribute of every class of a component kind has to agree with the templates that declare that kind without defining it (the role-preserving IO adapters expose `_process_logic` only)", 20)
+    builders = diagnostic_builders(repo)
+    checks = catalogue_checks(repo)
+    if len(checks) < 10:
+        raise AnalysisError(f"contract catalogue: {len(checks)} check functions registered through RuleSpec(...) found (30+ confirmed by reading)")
+    meta = metaclass_names(repo)
+    facts = []
+    for rel, tname, attrs, bases, site in tmpl:
+        kinds = template_component_types(repo, rel, attrs, bases, site)
+        if not kinds:
+            continue
+        members, closed = exact_class_facts(repo, bases, attrs)
+        facts.append((rel, tname, _AbsExact(["<generated>"] + mro_names(repo, bases), members, closed, meta), kinds, site))
+    if len(facts) < 6:
+        raise AnalysisError(f"{len(facts)} class templates with a decided component_type found (10 confirmed by reading)")
+    for qn in checks:
+        nf = clone(normalize(repo, exp_mod, exp_mod.defs[qn], copyprop="all", keep=tuple(builders)))
+        _attach_parents(nf)
+        nps = _explicit_params(nf)
+        if not nps:
+            continue
+        for d in error_diagnostics(nf, builders):
+            for rel, tname, absc, kinds, site in facts:
+                for kind, ctype in kinds:
+                    env: Dict[str, object] = {nps[0]: absc}
+                    if len(nps) > 1:
+                        env[nps[1]] = {"component_type": ctype}
+                    verdict, seen, test = diagnostic_fires(repo, exp_mod, nf, d, env)
+                    if verdict is None:
+                        continue
+                    repo.consulted.add(rel)
+                    label = f"{tname} [{kind}]" if kind else tname
+                    R.check(verdict is False, r_dem, EXP, qn, f"{norm(test if test is not None else d, 100)} for {label}",
+                            f"`{EXP}:{qn}` reports `{norm(d, 60)}` (error) for every class generated by `{rel}:{label}` (component_type `{ctype}`; line {getattr(site, 'lineno', 0)}): "
+                            + "; ".join(seen) + f" - decided on what the template and its bases ({', '.join(absc.names[1:4])}, ..) bind: an attribute none of them defines is absent from the generated class, `hasattr` is false and a static lookup finds nothing. The generated processor class of every such node configuration fails the published contract catalogue; the check and the templates have to agree on which attributes a class that declares this component kind carries",
+                            getattr(test, "lineno", 0) or getattr(d, "lineno", 0) or getattr(exp_mod.defs[qn], "lineno", 0))
+
+    # ------------------------------------------------------------------ metadata parses a configured text the way the factory validated it
+    r_par = R.rule("C16-D1-metadata-parses-what-the-factory-validated", "where the `_define_metadata` of a generated class parses (`ast.parse`, no catch-all handler on the way) a text that the factory stored on the class from one of its arguments, the factory's own construction-time path parses the text of that argument too, and some such site parses it in the same form (same function of the received text, same mode): the construction-time parse is what rejects a configuration whose expressions do not parse, so if it parses a cleaned-up text (`str(x).strip()`) while the class keeps and later parses the raw one, configurations are accepted whose generated class raises in `_define_metadata` / `get_metadata()` - SVA100 (error), the metaclass does not register the class (SVA107), and an adapter built over it fails the same way", 3)
+    memo: Dict[int, list] = {}
+    for rel, tname, attrs, bases, site in tmpl:
+        factory = enclosing_function(site)
+        if factory is None:
+            continue
+        tm = repo.module(rel)
+        fparams = [p for p in _params(factory) if p not in ("self", "cls")]
+        inside = lambda n: any(a is factory for a in ancestors(n))  # noqa: E731
+        gates: Optional[list] = None
+        for attr, f, _b in member_functions(repo, rel, attrs, site):
+            if attr != "_define_metadata" or not isinstance(f, FuncNode):
+                continue
+            for chain, m2, f2, c2, which in source_parser_sites(repo, tm, f, memo):
+                # the call that hands the text over from the code inside the factory
+                steps = chain + [(m2, f2, c2)]
+                bnd = [st for st in steps if inside(st[1]) or st[1] is f]
+                if not bnd:
+                    continue
+                _bm, bfn, bcall = bnd[-1]
+                stored: Set[str] = set()
+                for a in list(bcall.args) + [k.value for k in bcall.keywords]:
+                    for x in value_flow(bfn, a):
+                        if isinstance(x, ast.Constant) and isinstance(x.value, str) and x.value in attrs:
+                            stored.add(x.value)
+                        elif isinstance(x, ast.Attribute) and x.attr in attrs:
+                            stored.add(x.attr)
+                origin: Set[str] = set()
+                for x_attr in sorted(stored):
+                    node = attrs[x_attr][0]
+                    v = node.value if isinstance(node, (ast.Assign, ast.AnnAssign)) else node
+                    if v is None or isinstance(v, FuncNode):
+                        continue
+                    origin |= {y.id for y in _flow_in(factory, v) if isinstance(y, ast.Name) and y.id in fparams}
+                if not origin:
+                    continue
+                if gates is None:
+                    gates = []
+                    for c in calls_in(factory):
+                        try:
+                            targets = list(repo.resolve_call(tm, c)) or _typed_method_targets(repo, tm, factory, c)
+                        except Exception:  # pragma: no cover
+                            targets = []
+                        reads = {y.id for a in list(c.args) + [k.value for k in c.keywords] for y in _flow_in(factory, a) if isinstance(y, ast.Name) and y.id in fparams}
+                        for gm, gn in targets:
+                            if isinstance(gn, FuncNode) and not inside(gn):
+                                for _ch, m3, f3, c3, w3 in source_parser_sites(repo, gm, gn, memo):
+                                    gates.append((reads, m3, f3, c3, w3, c))
+                want = parsed_text_form(repo, m2, f2, c2)
+                mine = [g for g in gates if g[0] & origin and g[4] == which]
+                if not mine:
+                    raise AnalysisError(f"{rel}:{tname}._define_metadata parses the text stored in `{'/'.join(sorted(stored))}` (from `{'/'.join(sorted(origin))}`) at {m2.rel}:{qualname_of(f2)} (`{norm(c2, 60)}`), but no `{which}` of that argument was found on the construction-time path of `{qualname_of(factory)}`: whether invalid texts are rejected before the class exists is not decided")
+                repo.consulted.add(m2.rel)
+                forms = {}
+                for _r, m3, f3, c3, _w, _c in mine:
+                    repo.consulted.add(m3.rel)
+                    forms[parsed_text_form(repo, m3, f3, c3)] = (m3, f3, c3)
+                ok = want in forms
+                gm3, gf3, gc3 = next(iter(forms.values()))
+                R.check(ok, r_par, gm3.rel if not ok else m2.rel, qualname_of(gf3) if not ok else qualname_of(f2), norm(stmt_of(gc3) if not ok else stmt_of(c2), 110) + f" [{tname}]",
+                        f"`{qualname_of(factory)}` validates the argument `{'/'.join(sorted(origin))}` at construction time with `{next(iter(forms))}` (`{gm3.rel}:{qualname_of(gf3)}`, _P_ = the text it receives), while the class it generates ({tname}) keeps the raw value in `{'/'.join(sorted(stored))}` and its `_define_metadata` parses it with `{want}` (`{m2.rel}:{qualname_of(f2)}`, reached through {' -> '.join(qualname_of(st[1]) for st in steps)}) without a handler: the two sides of this module boundary do not parse the same string, so a text that only the construction-time form accepts (leading blanks, a non-string scalar from YAML) is accepted, the node is built, and `_define_metadata()` / `get_metadata()` of the generated sweep class raise - SVA100 (error), the class is never registered, and the IO adapter generated around a swept source fails the same way",
+                        getattr(gc3, "lineno", 0) if not ok else getattr(c2, "lineno", 0))
